@@ -24,6 +24,8 @@ type Clause struct {
 	Text  string
 	Tags  []string // property ids
 	Where string   // spec file:line
+	Uses  []string // lemmas / axioms made available for this clause only ("... @uses a, b")
+	Opt   string   // optional postcondition group ("... @opt name"): assumed only by callers that declare "wants name"
 }
 
 type LoopSpec struct {
@@ -67,6 +69,9 @@ type Unit struct {
 	Target   string   // escaping closure: captured variable that is the target tensor of the back edge
 	Implements string // abstract (function-type) contract this closure must satisfy
 	Uses     []string // lemmas assumed in this unit (each is proved separately)
+	Have     []Clause          // intermediate facts over the locals at a return, proved in order and then assumed
+	Wants    map[string]bool   // optional postcondition groups of callees this unit asks for
+	Witness  map[string]string // existsT variable -> spec expression (over locals at return) that instantiates it in proofs
 	Trusted  []Clause // postconditions assumed at call sites but not proved from the body (paper lemmas); always reported
 }
 
@@ -193,7 +198,7 @@ func (p *Program) collectLits(u *Unit, body ast.Node) {
 	})
 }
 
-var clauseRe = regexp.MustCompile(`^(requires|ensures|modifies|loop|takes|public|assumed|bounded|returns|ghost|props|domain|defined|source|target|implements|uses|trusted)\b(\[[A-Z0-9,]+\])?\s*(.*)$`)
+var clauseRe = regexp.MustCompile(`^(requires|ensures|modifies|loop|takes|public|assumed|bounded|returns|ghost|props|domain|defined|source|target|implements|uses|trusted|witness|wants|have)\b(\[[A-Z0-9,]+\])?\s*(.*)$`)
 
 func (p *Program) specErr(where, msg string) {
 	p.SpecErr = append(p.SpecErr, where+": "+msg)
@@ -231,7 +236,7 @@ func (p *Program) parseSpecs(pkg *packages.Package) {
 			first := strings.Fields(t)[0]
 			first = strings.SplitN(first, "[", 2)[0]
 			switch first {
-			case "func", "closure", "abstract", "requires", "ensures", "modifies", "loop", "takes", "public", "assumed", "bounded", "define", "axiom", "returns", "ghost", "props", "domain", "defined", "source", "target", "implements", "uses", "lemma", "predicate", "trusted":
+			case "func", "closure", "abstract", "requires", "ensures", "modifies", "loop", "takes", "public", "assumed", "bounded", "define", "axiom", "returns", "ghost", "props", "domain", "defined", "source", "target", "implements", "uses", "lemma", "predicate", "trusted", "witness", "wants", "have":
 				joined = append(joined, line{t, l.where})
 			default:
 				if len(joined) == 0 {
@@ -325,7 +330,32 @@ func (p *Program) parseSpecs(pkg *packages.Package) {
 					}
 				}
 				rest := strings.TrimSpace(m[3])
+				var mk0 func(src string) (Clause, bool)
 				mk := func(src string) (Clause, bool) {
+					var uses []string
+					opt := ""
+					if i := strings.Index(src, "@opt"); i >= 0 {
+						rest := strings.TrimSpace(src[i+4:])
+						fs := strings.Fields(rest)
+						if len(fs) > 0 {
+							opt = fs[0]
+							rest = strings.TrimSpace(strings.TrimPrefix(rest, fs[0]))
+						}
+						src = strings.TrimSpace(src[:i]) + " " + rest
+					}
+					if i := strings.Index(src, "@uses"); i >= 0 {
+						for _, x := range strings.Split(src[i+5:], ",") {
+							uses = append(uses, strings.TrimSpace(x))
+						}
+						src = strings.TrimSpace(src[:i])
+					}
+					c, ok := mk0(src)
+					c.Uses = uses
+					c.Opt = opt
+					return c, ok
+				}
+				_ = mk
+				mk0 = func(src string) (Clause, bool) {
 					e, err := parser.ParseExpr(src)
 					if err != nil {
 						p.specErr(l.where, fmt.Sprintf("%v in %q", err, src))
@@ -358,6 +388,25 @@ func (p *Program) parseSpecs(pkg *packages.Package) {
 					cur.Source = rest
 				case "target":
 					cur.Target = rest
+				case "witness":
+					fs := strings.SplitN(rest, "=", 2)
+					if len(fs) == 2 {
+						if cur.Witness == nil {
+							cur.Witness = map[string]string{}
+						}
+						cur.Witness[strings.TrimSpace(fs[0])] = strings.TrimSpace(fs[1])
+					}
+				case "have":
+					if c, ok := mk(rest); ok {
+						cur.Have = append(cur.Have, c)
+					}
+				case "wants":
+					if cur.Wants == nil {
+						cur.Wants = map[string]bool{}
+					}
+					for _, x := range strings.Split(rest, ",") {
+						cur.Wants[strings.TrimSpace(x)] = true
+					}
 				case "implements":
 					cur.Implements = rest
 				case "uses":
